@@ -520,9 +520,8 @@ func parseResponse(ctx context.Context, isStreaming bool, fn *parser.Function, t
 	wrappedResp.Struct().names.Set("", unsafe.Pointer(respField))
 
 	// parse exceptions
-	if len(fn.Throws) > 0 {
-		// only support single exception
-		exp := fn.Throws[0]
+	// every declared exception is a field of the response struct
+	for _, exp := range fn.Throws {
 		exceptionType, err := parseType(ctx, exp.Type, tree, structsCache, 0, opts, nextAnns, Exception)
 		if err != nil {
 			return nil, err
